@@ -1013,6 +1013,20 @@ class Engine:
             a = st.assume.get(nk)
             if a is not None and a[0] == "int" and a[1] == a[2] and a[1] in (0, 1):
                 st.assume[key] = vint(1 - a[1])
+            # `x?` on an Option/Result whose variant was decided on this path: discr(Try::branch(x)) (Continue = 0, Break = 1) follows discr(x)
+            # (Option: None = 0, Some = 1; Result: Ok = 0, Err = 1), also through as_ref / as_mut
+            if key not in st.assume and key[0] == "app" and key[1] == "discr" and len(key[2]) == 1:
+                y = key[2][0]
+                if y[0] == "app" and str(y[1]).endswith("::branch") and len(y[2]) == 1:
+                    is_opt = "option::Option" in str(y[1])
+                    o = y[2][0]
+                    while o[0] == "app" and str(o[1]).split("::")[-1] in ("as_ref", "as_mut", "&", "as_deref") and o[2]:
+                        o = o[2][0]
+                    if o[0] == "adt" and o[2] in ("Some", "None", "Ok", "Err"):
+                        st.assume[key] = vint(0 if o[2] in ("Some", "Ok") else 1)
+                    a2 = st.assume.get(("app", "discr", (o,)))
+                    if a2 is not None and a2[0] == "int" and a2[1] == a2[2] and a2[1] in (0, 1):
+                        st.assume[key] = vint(1 - a2[1]) if is_opt else vint(a2[1])
         if key in st.assume:
             a = st.assume[key]
             if a[0] == "int":
